@@ -19,6 +19,7 @@ import (
 	"strings"
 	"time"
 
+	"github.com/mutagen-io/mutagen/pkg/filesystem"
 	"github.com/mutagen-io/mutagen/pkg/identifier"
 	"github.com/mutagen-io/mutagen/pkg/selection"
 	"github.com/mutagen-io/mutagen/pkg/synchronization"
@@ -385,6 +386,114 @@ func c40Listings(c *vlib.Ctx, cases []c40ListCase) []map[string]any {
 	return recs
 }
 
+// ---- histories: selection on a manager whose registry has a history
+
+type c40Op struct {
+	kind     string // "term" | "pause"
+	sel      string // "all" | "id" | "name" | "label"
+	arg      int    // session index (id), name index (2 = na, 3 = nb), selector index (label)
+	sabotage int    // session whose file is removed before the call (0 = none)
+}
+
+var c40Pops = [][][2]int{{{2, 2}, {2, 3}, {3, 4}}, {{1, 1}, {2, 2}, {3, 3}}}
+var c40Histories = [][]c40Op{
+	{},
+	{{"term", "id", 1, 0}},
+	{{"term", "name", 2, 0}},
+	{{"term", "label", 3, 0}},
+	{{"term", "all", 0, 0}},
+	{{"term", "id", 2, 0}, {"term", "id", 2, 0}},
+	{{"term", "label", 1, 1}},
+	{{"term", "label", 1, 2}},
+	{{"term", "label", 1, 3}},
+	{{"term", "name", 2, 1}},
+	{{"term", "name", 2, 2}},
+	{{"pause", "all", 0, 0}, {"term", "id", 3, 0}},
+	{{"term", "label", 3, 0}, {"term", "label", 1, 0}},
+	{{"term", "all", 0, 2}, {"term", "all", 0, 0}},
+	{{"term", "id", 1, 1}},
+	{{"term", "all", 0, 1}, {"term", "id", 2, 0}, {"pause", "all", 0, 0}},
+	{{"pause", "id", 1, 0}, {"term", "name", 3, 0}},
+	{{"term", "label", 5, 0}, {"term", "label", 4, 0}},
+	{{"term", "all", 0, 3}, {"term", "label", 1, 0}, {"term", "all", 0, 0}},
+	{{"term", "id", 3, 0}, {"term", "id", 1, 0}, {"term", "id", 2, 0}},
+	{{"term", "name", 3, 3}, {"term", "name", 3, 0}},
+	{{"term", "label", 2, 0}},
+}
+
+func c40SessionFile(id string) string {
+	p, err := filesystem.Mutagen(false, filesystem.MutagenSynchronizationSessionsDirectoryName, id)
+	if err != nil {
+		vlib.Fatal("session path: %v", err)
+	}
+	return p
+}
+
+func c40History(c *vlib.Ctx, pi, hi int) map[string]any {
+	pop := c40Pops[pi-1]
+	m, base, sessions := c40Populate(c, pop)
+	defer os.RemoveAll(base)
+	defer m.Shutdown()
+	ctx, cancel := context.WithTimeout(context.Background(), 120*time.Second)
+	defer cancel()
+	ops := []any{}
+	for _, op := range c40Histories[hi-1] {
+		sel := &selection.Selection{}
+		switch op.sel {
+		case "all":
+			sel.All = true
+		case "id":
+			sel.Specifications = []string{sessions[op.arg-1].id}
+		case "name":
+			sel.Specifications = []string{c40Names[op.arg-1]}
+		case "label":
+			sel.LabelSelector = c40Selectors[op.arg-1]
+		}
+		// (the table's sabotaged session is among the selected ones for the first population only)
+		if op.sabotage > 0 && pi == 1 {
+			os.Remove(c40SessionFile(sessions[op.sabotage-1].id))
+		}
+		var err error
+		if op.kind == "term" {
+			err = m.Terminate(ctx, sel, "")
+		} else {
+			err = m.Pause(ctx, sel, "")
+		}
+		ops = append(ops, map[string]any{"op": op.kind, "sel": op.sel, "arg": op.arg, "sabotage": op.sabotage, "err": ascii(errStr(err))})
+	}
+	ss := []any{}
+	for _, s := range sessions {
+		e := s.enc()
+		_, statErr := os.Stat(c40SessionFile(s.id))
+		e["file"] = statErr == nil
+		e["terminated"] = statErr != nil
+		e["alive"] = statErr == nil
+		ss = append(ss, e)
+	}
+	var queries []any
+	ask := func(q map[string]any, sel *selection.Selection, specs []any) {
+		_, states, err := m.List(ctx, sel, 0)
+		out := []any{}
+		for _, st := range states {
+			out = append(out, map[string]any{"id": st.Session.Identifier, "csec": int(st.Session.CreationTime.Seconds), "cnano": int(st.Session.CreationTime.Nanos)})
+		}
+		queries = append(queries, map[string]any{"q": q, "specs": specs, "err": ascii(errStr(err)), "out": out})
+	}
+	ask(map[string]any{"kind": "all"}, &selection.Selection{All: true}, []any{})
+	for i, text := range c40Selectors {
+		ask(map[string]any{"kind": "labels", "sel": i + 1}, &selection.Selection{LabelSelector: text}, []any{})
+	}
+	for _, s := range sessions {
+		ask(map[string]any{"kind": "specs", "syms": []any{1}}, &selection.Selection{Specifications: []string{s.id}}, []any{s.id})
+	}
+	for _, name := range []string{"na", "nb"} {
+		ask(map[string]any{"kind": "specs", "syms": []any{4}}, &selection.Selection{Specifications: []string{name}}, []any{name})
+	}
+	c.Eval()
+	c.NonTrivial(fmt.Sprint("history", pi, hi))
+	return map[string]any{"ev": "History", "in": map[string]any{"h": pi*100 + hi, "pop": pi, "hist": hi}, "sessions": ss, "ops": ops, "queries": queries}
+}
+
 func runC40(c *vlib.Ctx) error {
 	maxPop := argInt(c, "pop", 2)
 	depth := argInt(c, "depth", 2)
@@ -436,6 +545,17 @@ func runC40(c *vlib.Ctx) error {
 			c.Sample(rec)
 		}
 	}
+	// 2b. selection after a history of lifecycle operations
+	for pi := range c40Pops {
+		for hi := range c40Histories {
+			rec := c40History(c, pi+1, hi+1)
+			c.Emit(rec)
+			if pi == 0 && hi == 7 {
+				c.Sample(rec)
+			}
+		}
+	}
+	c.SetExtra("histories", len(c40Pops)*len(c40Histories))
 	// 3. truncation on real sessions
 	cases := c40ListingSets(c, [][3]int{{0, 0, 0}, {9, 10, 11}, {10, 11, 9}, {11, 9, 10}, {25, 25, 25}, {1, 12, 0}})
 	for _, rec := range c40Listings(c, cases) {
@@ -487,6 +607,14 @@ func replayC40(c *vlib.Ctx, begin map[string]any) error {
 		m, _, sessions := c40Populate(c, pop)
 		defer m.Shutdown()
 		c.Emit(c40Query(c, m, pop, sessions, qq))
+	case "History":
+		var pi, hi int
+		vlib.Decode(in["pop"], &pi)
+		vlib.Decode(in["hist"], &hi)
+		if pi < 1 || pi > len(c40Pops) || hi < 1 || hi > len(c40Histories) {
+			return fmt.Errorf("history out of range")
+		}
+		c.Emit(c40History(c, pi, hi))
 	case "Less":
 		var a, b []string
 		vlib.Decode(in["a"], &a)
